@@ -89,7 +89,7 @@ func HarnessC08Sign() {
 	e := svPick("embeds", svParam("embeds", 1)+1)
 	a := svPick("atts", svParam("atts", 1)+1)
 	menc := hxEnc(svPick("menc", 3))
-	variant := svPick("variant", svParam("variants", 8))
+	variant := svPick("variant", svParam("variants", 9))
 	n := svParam("n", 2)
 	m := NewMsg(WithEncoding(menc))
 	_ = m.From("a@b.c")
@@ -121,6 +121,25 @@ func HarnessC08Sign() {
 		m.CcIgnoreInvalid("not an address")
 	case 7:
 		vname = "after-WriteToSkipMiddleware"
+	case 8:
+		// a caller-chosen boundary is documented to work only for messages with a
+		// single multipart level (the signed wrapper does not count: it must still
+		// get a boundary of its own)
+		vname = "custom-boundary"
+		levels := 0
+		if a > 0 {
+			levels++
+		}
+		if e > 0 {
+			levels++
+		}
+		if p > 1 {
+			levels++
+		}
+		if levels > 1 {
+			return
+		}
+		m.SetBoundary("caller-chosen-boundary")
 	}
 	content := append([]byte("signed body "), svBytes("c", n)...)
 	content = append(content, []byte("\r\n")...)
